@@ -22,15 +22,24 @@ TIE = ('translator+correspondence: translate/gen_c12.py regenerates the decision
        'fast path, join key, get_data argument order) into Gen/C12.v; Bridge/C12.v proves them equal to the named rules of '
        'Model/C12.v and that the model\'s state machines step by those rules; the generators, consumers and the chunked '
        'groupby are additionally evaluated inside Coq on every case (correspondence)')
-ASSUMPTIONS = ['entries of one contig are contiguous in the data (the property\'s precondition; checked per case in Coq: gen_ok)',
-               'no empty chunk in the stream (groupby raises ValueError on one; no reader yields one)',
+ASSUMPTIONS = ['entries of one contig are contiguous in the data (the property\'s precondition; checked per case in Coq: gen_ok; '
+               'C12_group_names_distinct / contiguous_entries_of relate it to pairwise distinct group names)',
+               'a chunking is a cut into NON-EMPTY consecutive chunks: an empty chunk in a stream makes groupby raise ValueError '
+               '(a loud error, nothing is dropped); no reader produces one — outside the quantifier, not generated',
+               'the genome has at least one included contig: with none, get_intervals(stream) lets a bare StopIteration escape '
+               'from StreamNode.__init__ (loud, nothing to synchronise) — outside the quantifier, not generated',
                'all contigs have the same size and every entry lies inside it, so the per-contig operation (pileup, '
                'from_bedgraph, boolean mask) cannot fail and identifies each delivered entry by its position / value',
-               'a generator is modelled by its trace (yields, then StopIteration or an exception); the consumers are '
-               'modelled by how many items they pull (computation_graph.get_iter argument order, zip)']
-PARTIAL = ['C12_genome_partial: with chromosome_order() as it is, exactness needs that no included contig name contains "_"',
-           'C12_rows_partial / C12_zip_second_partial: a consumer that pulls exactly one item per contig (get_data, second '
-           'stream of zip) gets the exact assignment for order-compatible data but no error for incompatible data']
+               'a generator is modelled by its trace (yields, then StopIteration or an exception); the consumers are the pull '
+               'machine `lockstep` (sources asked in list order per round, first exhausted source ends the iteration) whose '
+               'source orders and shape facts are regenerated from computation_graph.py / decorators.py / the call sites '
+               '(C12_source_tie); C12_machine_* prove the pull depths (pull_all / pull_n) from it']
+PARTIAL = ['C12_genome_partial: with the pre-fix chromosome_order() exactness needs that no included contig name contains "_" '
+           '(history; /repo HEAD has the fix: C12_head_genome_end_to_end is unguarded)',
+           'C12_zip_second_partial / C12_head_multistream_end_to_end / C12_model_ok_implies_spec_ok_multistream_partial: the '
+           'SECOND stream of zip(ms.a, ms.b, ms.lengths) (forbes/jaccard) is exact for order-compatible data; for data that must '
+           'raise it can complete silently (C12_zip_second_refuted; known finding C12-multistream-second-stream-unchecked) — '
+           'never with an entry under another contig (C12_zip_second_never_misattributes)']
 PER_FILE = 40
 L = 40                      # common contig size
 UNKNOWN = 'chrU'
@@ -462,20 +471,45 @@ def _failing(case, o):
     return sorted(set(bad))
 
 
+def _synched_yields(order, groups):
+    """what SynchedStream.__iter__ (code at HEAD) yields before it stops or raises: (tables, error code or None)"""
+    out, seen, idx = [], set(), 0
+    for name, ids in groups:
+        if name in seen:
+            return out, 4
+        if name not in order:
+            return out, 5
+        while idx < len(order) and order[idx] != name:
+            out.append([])
+            seen.add(order[idx])
+            idx += 1
+        out.append(list(ids))
+        seen.add(order[idx])
+        idx += 1
+    out += [[] for _ in order[idx:]]
+    return out, None
+
+
 def finding(case, o):
+    """id of the known finding whose EXACT failure mode this case shows, else None.  The only listed finding is
+    C12-multistream-second-stream-unchecked: MultiStream route, data that must raise, the attribute run to its end does
+    raise (with the code the walk produces), and the zip's second stream / the contingency table complete with exactly the
+    first len(contigs) tables that walk yields — anything else (other tables, other counts, another error) is NOT it."""
     bad = _failing(case, o)
-    if not bad:
+    if not bad or case['route'] != 1 or _expected(case) is not None:
         return None
-    G, _ = _ctx(case)
-    if case['route'] == 0 and _expected(case) is None and bad == [('rows', 'silent')]:
-        # only the one-item-per-contig consumer completes; the exhaustive consumers raise as they must
-        return 'C12-get-data-pulls-no-further'
-    if case['route'] == 0 and any('_' in n for n in G):
-        # an included contig whose name contains '_' is never visited by chromosome_order()
-        return 'C12-underscore-contig-skipped'
-    if case['route'] == 1 and _expected(case) is None and set(bad) <= {('mszip', 'silent'), ('ct', 'silent')}:
-        return 'C12-multistream-second-stream-unchecked'
-    return None
+    if not set(bad) <= {('mszip', 'silent'), ('ct', 'silent')}:
+        return None
+    n = len(case['genome'])
+    ys, err = _synched_yields(case['genome'], case['groups'])
+    if err is None or len(ys) < n:
+        return None                     # the walk raises before the n-th yield: a silent completion is not this finding
+    first = ys[:n]
+    if o.get('mslist') != [dict(err=err)]:
+        return None
+    if o.get('mszip') != [dict(done=first)] or o.get('ct') != [dict(done=[n, sum(len(t) for t in first)])]:
+        return None
+    return 'C12-multistream-second-stream-unchecked'
 
 
 def signature(case, o):
